@@ -453,4 +453,4 @@ CLAIM = ("Fault enumeration: for every sampled victim call all of its crash poin
          "(and after a torn prefix of each write) is restored exactly, a second library copy is started cold on it and the recovery oracle is evaluated: R1 recovery returns (no exit/abort/sanitizer report/hang), "
          "R2 other tokens and their PINs intact, R3 untouched objects intact attribute by attribute, R4 the written object/PIN is in its old or its new state and no half-written object is returned as valid, "
          "R5 the token accepts a further write and a restart. Which calls and histories are sampled is seeded; within a sampled call the enumeration is complete up to content-identical states.")
-NOTE = "Crash model: process death (user-space buffers lost, everything handed to the kernel survives; the library never calls fsync, power loss is out of scope). Trusted: simfs, the recovery script, baselines read through the API before and after the victim call."
+NOTE = "Crash model: process death (user-space buffers lost, everything handed to the kernel survives; the library never calls fsync, power loss is out of scope). Trusted: simfs, the recovery script, baselines read through the API before and after the victim call. Every fifth victim call runs on the SQLite object store: crash points are then SQLite's own writes, truncations and deletions of database and rollback journal, recovery includes its hot-journal roll-back."
